@@ -10,15 +10,23 @@ PROP = dict(
          'extra -atoms (blockers, bare names) and -nobdeps; traps (inactive conditionals around missing packages, unsatisfied groups, '
          'build-only dependencies under -nobdeps); a per-case chaos level (55% calm, 30% some trouble, 15% wild); scenarios '
          '(many slots of few names, a dependency cycle through every package, one atom text with a parent-relative USE '
-         'dependency [f=] [!f=] [f?] [!f?] in several selected packages whose own setting of f differs); directories are created in a random order and the '
+         'dependency [f=] [!f=] [f?] [!f?] in several selected packages whose own setting of f differs, '
+         'EMPTY GROUPS -- flag? ( ), !flag? ( ), ( ), ?? ( ), || ( ), nested a? ( b? ( ) ) -- as first / middle / last item of '
+         'the string or of a group, directly followed by an atom, a blocker, an all-of group, an any-of group or another '
+         'conditional, with the owner\'s flag on / off / undeclared, and sprinkled at item boundaries of ordinary texts); '
+         'the dependency trees handed to Coq are the PMS readings of the files (harness reference grammar, tied to the text '
+         'token by token inside Coq: texts_ok), not the trees of the decoder under test; directories are created in a random order and the '
          'tree is built a second time in the reverse order on tmpfs. '
          'Non-trivial: the selection has at least 2 members beyond the requested atoms or the run fails; '
          'distinct by the whole input (dependency graph, USE assignment, request)',
     explanation='theorems about the Gallina model of the resolver (Roots, Closed, Justified, Unblocked, '
+                'unique readability of dependency strings, empty groups contribute nothing, '
                 'must-fail, failure-has-a-reason, termination with fuel = packages+1 for every input, independence '
                 'of the enumeration order, @system set); per case Coq evaluates wf, model=observation (in-process '
                 'API, stagemaker -list system/stage, and -list stage on a re-ordered copy) and spec(observation)',
-    assumptions=['atom parsing (C14) and atom matching (C13) enter as oracles computed by the real code: every atom '
+    assumptions=['the group structure of a dependency string is read by the harness (PMS 8.2 grammar) and checked against '
+                 'the text inside Coq (C05.tie); a text outside the grammar keeps the decoder\'s own answer (C14 owns it)',
+                 'atom parsing (C14) and atom matching (C13) enter as oracles computed by the real code: every atom '
                  'carries the package name the parser gave it and the installed packages DependAtom.FilterAtoms '
                  'accepts in the owning package\'s USE context',
                  'the kernel resolves paths as Model.Profile.walk does (symbolic links expanded in place)'],
